@@ -11,4 +11,4 @@ CONSTANTS
   QStale = FALSE
   QExact0 = FALSE
   QBackstep = FALSE
-INVARIANTS Bounds Residual WalkerMeaning PathIndependent SmallIsStep
+INVARIANTS Bounds Residual WalkerMeaning PathIndependent SmallIsStep WideAgrees
